@@ -756,9 +756,31 @@ def fam_lut_heavy(rng):
     return net
 
 
+def fam_weights_heavy(rng):
+    """convolutions / fully connected layers with many weights: weight buffering, double buffering, depth slicing,
+    two-core weight interleaving"""
+    net = Net("weights_heavy")
+    dt = rng.choice(["int8", "int8", "uint8", "int16"])
+    h, w, c = rng.choice([(32, 32, 64), (16, 16, 128), (24, 24, 32), (8, 8, 256), (40, 20, 48)])
+    x = _inp(net, rng, [1, h, w, c], dt)
+    t = x
+    for _ in range(rng.randrange(1, 4)):
+        k = rng.choice([1, 1, 3])
+        oc = rng.choice([64, 96, 128, 256, 200])
+        if rng.random() < 0.2:
+            t = depthwise(net, rng, t, (3, 3))
+        t = conv2d(net, rng, t, oc, (k, k), (rng.choice([1, 1, 2]),) * 2, (1, 1), "SAME", rng.choice(["NONE", "RELU"]))
+    if rng.random() < 0.4:
+        n, hh, ww, cc = t.shape
+        t = reshape(net, rng, t, [1, hh * ww * cc])
+        t = fully_connected(net, rng, t, rng.choice([10, 64, 128]))
+    net.output(t)
+    return net
+
+
 FAMILIES = {
     "conv_chain": fam_conv_chain, "conv_chain_big": lambda rng: fam_conv_chain(rng, big=True), "single": fam_single_op,
-    "diamond": fam_diamond, "mixed_cpu": fam_mixed_cpu, "unsupported": fam_unsupported, "lut_heavy": fam_lut_heavy,
+    "diamond": fam_diamond, "mixed_cpu": fam_mixed_cpu, "unsupported": fam_unsupported, "lut_heavy": fam_lut_heavy, "weights_heavy": fam_weights_heavy,
 }
 
 
